@@ -286,6 +286,9 @@ func judge(col *core.Collector, t *Trial, prop string) (violation string, nontri
 		drains := t.hookHit[siteIndex("drain.enter")].Load()
 		col.Count("writes_published", pushed)
 		col.Count("drain_tasks", drains)
+		for i, name := range []string{"idle", "required", "processingToIdle", "processingToRequired"} {
+			col.Count("drain_status_seen_by_writers."+name, t.statusAtWrite[i].Load())
+		}
 		if v != "" {
 			v = "stranded maintenance: " + v
 		}
